@@ -196,8 +196,9 @@ def _own_nodes(fnode):
 class AmpExecutor(readfile.ReadFileExecutor):
     """Adds the amplification obligation at every repetition with a symbolic count."""
 
-    def __init__(self, *a, only_repeat_helpers=False, helper_arg_sorts=None, **k):
+    def __init__(self, *a, only_repeat_helpers=False, helper_arg_sorts=None, header=None, **k):
         super().__init__(*a, **k)
+        self.header = header                                # 7z header-parser mode (contracts/c12_7zheader.py)
         self.only_repeat_helpers = only_repeat_helpers      # inline_local only for helpers that contain a repetition
         self.helper_arg_sorts = helper_arg_sorts            # inline_local only for helpers that receive an object of these sorts
 
@@ -238,6 +239,51 @@ class AmpExecutor(readfile.ReadFileExecutor):
 
     def e_DictComp(self, n, st):
         return self._comprehension(n, st, super().e_DictComp)
+
+    # ---- 7z header-parser mode: methods of the object under verification (contracts/c12_7zheader.py)
+    def obj_method(self, st, obj, name, args, kwargs, node):
+        if self.header is None:
+            return super().obj_method(st, obj, name, args, kwargs, node)
+        from contracts import c12_7zheader
+        o = st.obj(obj.ref)
+        q = f"{o.cls}.{name}"
+        if self.reg.get(f"{self.module.rel}::{q}") is not None:
+            # a method under contract with a count parameter: an argument that is a size of an object that already exists meets the
+            # requirement by the round-5 rule (`size_only` on the real AST of the call site)
+            cur = self.cur_fn_stack[-1] if self.cur_fn_stack else None
+            arg0 = node.args[0] if isinstance(node, ast.Call) and node.args else None
+            flag = False
+            try:
+                flag = bool(cur is not None and arg0 is not None and not isinstance(arg0, ast.Constant) and size_only(arg0, cur, self.module))
+            except RecursionError:
+                flag = False
+            if flag:
+                st.ghost["c12_count_is_a_size"] = True
+            try:
+                res = super().obj_method(st, obj, name, args, kwargs, node)
+            finally:
+                st.ghost.pop("c12_count_is_a_size", None)
+            for (s_, _v) in res:
+                s_.ghost.pop("c12_count_is_a_size", None)
+            return res
+        r = c12_7zheader.method_call(self, st, VFunc("repo", self.module.rel, q), [obj] + list(args), kwargs, node)
+        if r is not None:
+            return r
+        return super().obj_method(st, obj, name, args, kwargs, node)
+
+    def call_method(self, st, obj, name, args, kwargs, node):
+        # header mode: the object under verification after a loop cut / an unknown call is still an instance of its class
+        if self.header is not None and isinstance(obj, VRef) and st.obj(obj.ref).kind == "unk" and st.obj(obj.ref).cls and \
+                f"{st.obj(obj.ref).cls}.{name}" in self.module.functions:
+            return self.obj_method(st, obj, name, args, kwargs, node)
+        return super().call_method(st, obj, name, args, kwargs, node)
+
+    def try_concrete_while(self, s, st, limit=4096):
+        # header mode: `while True:` loops that leave by a `break` on a value read from the stream are cut like any symbolic loop
+        # (exact unrolling of a loop whose exit is symbolic forks at every step)
+        if self.header is not None:
+            return None
+        return super().try_concrete_while(s, st, limit)
 
     # ---- local helpers executed in place; a helper the model breaks on stays an unknown call
     def call(self, st, f, args, kwargs, node):
@@ -365,6 +411,9 @@ class AmpExecutor(readfile.ReadFileExecutor):
                     nt = ops.int_term(n) if isinstance(n, VInt) else z3.Int(fresh_name("int_of_unknown"))
                     srcs, unknown_src = _attr_sources(nt)
                     goal = nt <= REPEAT_CAP
+                    if self.header is not None:
+                        from contracts import c12_7zheader
+                        goal = c12_7zheader.bound_goal(self, nt)
                     if unknown_src and not srcs:
                         # a count without input provenance in the model: decide on the real AST whether it is made of sizes of
                         # existing objects only (then the repetition is bounded by what is already in memory)
@@ -684,6 +733,14 @@ def contracts(reg):
             EXECUTOR_KW[f"{c12_sevenzip.SZ}::{q}"] = {"abstract": False, "inline_calls": False, "inline_local": True}
     except Exception:  # noqa  (a pack's contracts() must not raise: the native scope decides then)
         pass
+    # ---- 7z header parser: allocations per declared count are bounded by a constant or by the header (contracts/c12_7zheader.py)
+    try:
+        from contracts import c12_7zheader
+        for c, kw in c12_7zheader.contracts(reg, loader.module(c12_7zheader.SZ)):
+            out.append(c)
+            EXECUTOR_KW[c.target] = kw
+    except Exception:  # noqa
+        pass
     return out
 
 
@@ -917,7 +974,12 @@ def known_findings(kf, violations, repo, tier):
 TRUSTED = ["defusedxml forbids entity expansion", "stat().st_size is the size read_file would read"]
 # (the four router functions are no longer listed here: each is verified in the run by `conform[router.py::<fn>]`; one that is not
 #  proved shows up in `assumed_contracts` under its own target, see pyvc/check.py `verified_assumed`)
-ASSUMED_MODELS = ["pathlib.Path.stat/st_size", "open()", "io.BytesIO.seek/tell (position, SEEK_END = size)"]
+ASSUMED_MODELS = ["pathlib.Path.stat/st_size", "open()", "io.BytesIO.seek/tell (position, SEEK_END = size)",
+                  "sevenzip.py::SevenZipReader._read_boolean_vector: its requires (count <= max(REPEAT_CAP, header size)) is an obligation only at the call sites in "
+                  "methods under contract (_parse_files_info); the call sites in _parse_pack_info / _parse_unpack_info / _parse_substreams_info / _skip_substreams_info "
+                  "are NOT checked (those parsers are not under contract)",
+                  "sevenzip.py header parsers: a call of another SevenZipReader method is modelled as 'returns anything (an arbitrary int when annotated -> int), raises "
+                  "anything, stream position anywhere, stream binding kept iff no store to it in the callee (AST, three levels)'"]
 BOUNDED = ["native-scope#explicit-limits, native-scope#zip-bomb-classes, native-scope#7z-declared-sizes and native-scope#repeat-attribute-classes: directed native runs of the replayer on every check (never counted as proved)"]
 ASSUMPTIONS = ["peak memory and run time as quantities are not decided (not expressible as contracts); what is decided are the structural causes of super-linear cost: "
                "unbounded repeat expansion (amp-bounded#repeat-site), overlapping carving of a scanned buffer (amp-bounded#carve-while-k: copies of different iterations "
